@@ -240,7 +240,7 @@ def r3_index(ctx):
             if owner is None:
                 ctx.violation('R3', f'{run_.module.relpath}:{t.lineno}', run_.qualname, 'flag-unconditional', 'the flag is set unconditionally')
                 continue
-            fm = G._formula(F.fold(ctx, owner.test, run_))
+            fm = G._formula(F.fold(ctx, G.substitute(owner.test, G.single_assignments(run_.node)), run_))
             naming = {
                 'TokenCategory.BARLINES == token.category': 'bar',
                 'TokenCategory.is_child(child=token.category, parent=TokenCategory.CORE)': 'core',
